@@ -1,3 +1,5 @@
+#[cfg(feature = "iggy_verif")]
+use iggy::verif::tokio;
 use crate::state::system::StreamState;
 use crate::streaming::session::Session;
 use crate::streaming::streams::stream::Stream;
@@ -16,6 +18,11 @@ use tokio::fs::read_dir;
 use tracing::{error, info, warn};
 
 static CURRENT_STREAM_ID: AtomicU32 = AtomicU32::new(1);
+
+#[cfg(feature = "iggy_verif")]
+pub(crate) fn verif_reset_stream_id() {
+    CURRENT_STREAM_ID.store(1, Ordering::SeqCst);
+}
 
 impl System {
     pub(crate) async fn load_streams(
